@@ -331,6 +331,12 @@ class CFG:
 def _cannot_raise(s):
     """`name = <literal constant>` / `self.attr = <literal constant>`: binding a constant
     to a local or to an attribute of the receiver cannot raise."""
+    if isinstance(s, ast.Expr) and isinstance(s.value, ast.Call) and not s.value.args \
+            and not s.value.keywords and isinstance(s.value.func, ast.Attribute) \
+            and s.value.func.attr == "clear" and isinstance(s.value.func.value, ast.Attribute) \
+            and isinstance(s.value.func.value.value, ast.Name) and s.value.func.value.value.id == "self":
+        # self.table.clear(): emptying a container held by the receiver
+        return True
     return isinstance(s, ast.Assign) and isinstance(s.value, ast.Constant) \
         and all(isinstance(t, ast.Name) or (isinstance(t, ast.Attribute)
                                             and isinstance(t.value, ast.Name) and t.value.id == "self")
